@@ -6,6 +6,28 @@ import os
 ROOT = os.path.dirname(os.path.dirname(os.path.abspath(__file__)))
 
 CHECKS = {
+    "C07": dict(
+        cat="exploration", ref="DESIGN.md 5/C07",
+        technique="TLA+ WriteSafe oracle on digit-sequence arithmetic (BigDec): own grammar parser, documented type table, exact one-step "
+                  "comparison incl. binary32 as exact decimal; TLC emits the definition x boundary-text domain (C07Gen), the harness replays "
+                  "it on real DataField::create/write/read, TLC judges every record and asserts domain completeness (C07Judge)",
+        text="107 definitions (all numeric base types, divisors/multipliers, 9 ranges, value lists, day types) x texts around min-1..max+1, "
+             "replacement, 2^k-1..2^k+1 (k in 7,8,15,16,23,24,31,32,63,64) in raw and value units, 25-digit values, each in up to 16 spellings, "
+             "95 malformed/special texts; thorough: all k, all spellings, 400 seeded random texts per definition (55.7k / 166.6k cases).",
+        note="Trusted: TLC evaluation, harness logging, documented type ranges. errno cleared per case (history is C12). Rejected inputs "
+             "unconstrained. Hex floats not generated."),
+    "C12": dict(
+        cat="exploration", ref="DESIGN.md 5/C12",
+        technique="TLA+ memo automaton Purity (an op never has two results), model-checked itself (MC_Purity); TLC enumerates all op histories "
+                  "and load permutations (PurityGen), the harness replays every history in one process lineage (fork tree), every op in an "
+                  "exec'ed fresh process and every permutation in a fresh process; TLC validates the trace (PurityTV) and the completeness of "
+                  "the replayed domain (PurityDomain)",
+        text="34 ops (valid/ERANGE/malformed encodes for unsigned, signed, fixed-point, float, list; ranged-field creation; divisor derivation "
+             "from plain vs. ranged-template types; decodes on one shared ostream after hex/fixed/padded/date-with-null fields; dumps): all "
+             "40.5k histories <=3, thorough +234k of length 4 over 22 core ops; 72 load permutations of 3 sets of 4 independent lines with "
+             "sorted dump and probe encodes.",
+        note="Trusted: TLC, harness logging (errno preserved around harness I/O), fork() as model of a long-running thread. Hidden state "
+             "outside the alphabet (e.g. locale) not exercised."),
     "C08": dict(
         cat="model_checking", ref="DESIGN.md 5/C08",
         technique="TLA+ MatchRef oracle (P) + transcription of createKey/add/find/checkId (S, MsgMatch.tla); TLC generates definition sets "
